@@ -49,12 +49,19 @@ def _support(draw, vals, spanning=False, packed=False):
         sup["fpr"] = draw(st.lists(rates, min_size=1, max_size=4))
     if kind == "thresholds":
         sup["thresholds"] = draw(gen.threshold_values(vals, draw(st.integers(1, 4)), allow_inf=False))
+        if draw(st.integers(0, 3)) == 0:
+            # accept-all / reject-all thresholds written as infinities (the end points of every ROC curve)
+            sup["thresholds"] = sup["thresholds"] + draw(st.sampled_from([[float("inf")], [float("-inf")],
+                                                                          [float("-inf"), float("inf")]]))
     if kind == "nb_points":
         sup["nb_points"] = draw(st.integers(4, 12) if spanning else st.integers(2, 12))
     elif kind != "nothing" and not spanning and draw(st.booleans()):
         sup["nb_points"] = draw(st.integers(0, 12))  # supplied points AND nb_points
     if "nb_points" in sup:
         sup["nb_kind"] = draw(st.sampled_from(["py", "py", "int64", "int32"]))
+        if kind == "nb_points" and draw(st.integers(0, 7)) == 0:
+            # a count held in a narrow NumPy integer type, at the top of its range
+            sup["nb_points"], sup["nb_kind"] = draw(st.sampled_from([(127, "int8"), (255, "uint8"), (126, "int8")]))
     return sup
 
 
